@@ -89,6 +89,44 @@ layout_t!(c15_address_ipv6, crate::node::Address, 22, 19, [2, s(), s(), s(), s()
 layout_t!(c15_address_dns1, crate::node::Address, 12, 5, [3, 1, s(), s(), s()]);
 layout_t!(c15_address_dns2, crate::node::Address, 12, 6, [3, 2, s(), s(), s(), s()]);
 
+/// Every message the node can construct fits the 16-bit frame limit: the maximum encoded size of
+/// each message kind, computed from the *real* limit constants and from the encoded size of one
+/// item as produced by the *real* encoders (on symbolic item contents), is at most `Size::MAX`.
+/// A raised limit or a grown item encoding is caught here.
+#[kani::proof]
+#[kani::unwind(70)]
+#[kani::stub(crate::git::raw::Oid::from_bytes, super::stubs::oid_from_bytes)]
+fn c15_size_limits() {
+    use crate::service::message::{Ping, ADDRESS_LIMIT, INVENTORY_LIMIT, REF_REMOTE_LIMIT};
+    use crate::storage::refs::RefsAt;
+    let max = wire::Size::MAX as usize;
+    let mut buf = [0u8; 128];
+
+    let oid = crate::git::Oid::from(super::stubs::oid_from_bytes(&kani::any::<[u8; 20]>()).unwrap());
+    let rid = crate::identity::RepoId::from(oid);
+    let n_rid = rid.encode(&mut io::Cursor::new(&mut buf[..])).unwrap();
+    let node = crate::service::NodeId::from(kani::any::<[u8; 32]>());
+    let n_node = node.encode(&mut io::Cursor::new(&mut buf[..])).unwrap();
+    let sig = crate::crypto::Signature::from(kani::any::<[u8; 64]>());
+    let n_sig = sig.encode(&mut io::Cursor::new(&mut buf[..])).unwrap();
+    let n_refs_at = RefsAt { remote: node, at: oid }.encode(&mut io::Cursor::new(&mut buf[..])).unwrap();
+    let n_ts = crate::Timestamp::try_from(kani::any::<u32>() as u64).unwrap().encode(&mut io::Cursor::new(&mut buf[..])).unwrap();
+
+    let head = 2 + n_node + n_sig; // type tag, announcer, signature
+    assert!(head + 2 + INVENTORY_LIMIT * n_rid + n_ts <= max, "C15: a full inventory announcement exceeds the frame limit");
+    assert!(head + n_rid + 2 + REF_REMOTE_LIMIT * n_refs_at + n_ts <= max, "C15: a full refs announcement exceeds the frame limit");
+    // node announcement: version, features, timestamp, alias, addresses (DNS names up to 255 bytes
+    // are the largest address encoding), nonce, user agent
+    let max_addr = 1 + (1 + 255) + 2;
+    assert!(
+        head + 1 + 8 + n_ts + (1 + radicle::node::MAX_ALIAS_LENGTH) + 2 + ADDRESS_LIMIT * max_addr + 8 + (1 + 64) <= max,
+        "C15: a full node announcement exceeds the frame limit"
+    );
+    assert!(2 + 2 + 2 + Ping::MAX_PING_ZEROES as usize <= max, "C15: a maximal ping exceeds the frame limit");
+    assert!(2 + 2 + Ping::MAX_PONG_ZEROES as usize <= max, "C15: a maximal pong exceeds the frame limit");
+    kani::cover!(n_rid == 22 && n_refs_at == 54);
+}
+
 macro_rules! layout {
     ($name:ident, $unwind:expr, $n:expr, $bytes:expr) => {
         #[kani::proof]
